@@ -191,3 +191,91 @@ class GetColumnValues(Family):
         r = g.row()
         ctx.prove("post.selects exactly the rows that reach the column", mask.get(r) == (g.L(r) > jc))
         ctx.prove("post.asks for that column of those rows", z3.And(I(col) == jc, z3.BoolVal(out == "COLUMN" and len(rec) == 1)))
+
+
+@register
+class ColumnSumValues(Family):
+    """sum(axis=0) of an integer array (exact accumulation with add.at):  result[k] = CS(k, n), the sum over the rows longer than k of their
+    k-th cell, where CS(k, 0) = 0 and CS(k, r+1) = CS(k, r) + (row r has a column k ? cell(r, k) : 0) is the property's own recursive
+    definition of a column sum; len(result) = the longest row.  Two inductions: along one row (A), over the rows (B)."""
+    name = "RaggedArray.sum[axis=0] values"
+    qualname = "npstructures.raggedarray:RaggedArray.sum"
+    serves = ["C09", "C19"]
+    timeout_ms = 30000
+    assumed = ["numpy.add.at: unbuffered sequential accumulation acc(k, j+1) = acc(k, j) + values[j] if idx[j] == k (audited)",
+               "numpy.searchsorted on the sorted row starts (unravel_multi_index)", "numpy.max of the row lengths",
+               "integer data as mathematical integers (no overflow of the 64-bit accumulator)"]
+
+    def extra_functions(self):
+        return ["reduction wrapper", "ViewBase.unravel_multi_index"]
+
+    def run(self, ctx, kind):
+        g = sym_ragged(ctx, kind="int", dtype=np.int64)
+        ctx.ghost["g"] = g
+        n, S, L, D = g.n, g.S, g.L, g.D.fn
+        telescoping(ctx, g, g.ra._shape.lengths)
+        ctx.assume(S(n) > 0)
+        ctx.add_index(n, n - 1)
+        out = g.ra.sum(axis=0)
+        ev = ctx.ghost["ufunc_at"][-1]
+        acc, idx = ev["acc"], ev["idx"]
+        ctx.prove("post.accumulation runs over every flat position", ev["m"] == S(n))
+        CS = z3.Function(fresh_name("CS"), z3.IntSort(), z3.IntSort(), z3.IntSort())
+        ctx.assume_forall("CS.base (spec)", lambda k_: CS(k_, 0) == 0)
+        ctx.assume_forall("CS.step (spec)", lambda k_, r_: z3.Implies(z3.And(0 <= r_, r_ < n),
+                          CS(k_, r_ + 1) == CS(k_, r_) + z3.If(z3.And(0 <= k_, k_ < L(r_)), D(S(r_) + k_), 0)), arity=2)
+        k, r, c = z3.Int("k"), z3.Int("r"), z3.Int("c")
+        ctx.skolem(z3.And(0 <= k, 0 <= r, r < n, 0 <= c, c < L(r)))
+        j = S(r) + c
+        # the index array is the column of every flat position (also proved in the dispatch family)
+        ctx.prove_then_assume("lemma: index of flat position S(r)+c is its column c", idx.get(j) == c, pool=[j, r, r + 1, r - 1, c, n], live=[k])
+        ctx.prove_then_assume("lemma: the weight of flat position S(r)+c is the cell itself", ev["values"].get(j) == D(j), pool=[j], live=[k, r, c])
+        inv = lambda c_: acc(k, S(r) + c_) == acc(k, S(r)) + z3.If(k < c_, D(S(r) + k), 0)
+        ctx.prove("lemmaA.base: c = 0", inv(z3.IntVal(0)), pool=[r, k], live=[c])
+        ctx.prove("lemmaA.step: along row r from c to c+1", z3.Implies(inv(c), inv(c + 1)), pool=[j, j + 1, k, r, r + 1, c, c + 1, n])
+        ctx.assume_forall("lemmaA (by induction on c)", lambda k_, r_, c_: z3.Implies(z3.And(0 <= k_, 0 <= r_, r_ < n, 0 <= c_, c_ <= L(r_)),
+                          acc(k_, S(r_) + c_) == acc(k_, S(r_)) + z3.If(k_ < c_, D(S(r_) + k_), 0)), arity=3)
+        k2, r2 = z3.Int("k2"), z3.Int("r2")
+        ctx.skolem(z3.And(0 <= k2, 0 <= r2, r2 < n))
+        ctx.prove("lemmaB.base: acc(k, S(0)) == CS(k, 0)", acc(k2, S(0)) == CS(k2, 0), pool=[k2, z3.IntVal(0)], live=[r2])
+        ctx.prove("lemmaB.step: over the rows from r to r+1", z3.Implies(acc(k2, S(r2)) == CS(k2, r2), acc(k2, S(r2 + 1)) == CS(k2, r2 + 1)),
+                  pool=[k2, r2, r2 + 1, L(r2), S(r2), S(r2 + 1)])
+        ctx.assume_forall("lemmaB (by induction on r)", lambda k_, r_: z3.Implies(z3.And(0 <= k_, 0 <= r_, r_ <= n), acc(k_, S(r_)) == CS(k_, r_)), arity=2)
+        k3 = z3.Int("k3")
+        w = dim_term(out.shape_[0])
+        ctx.skolem(z3.And(0 <= k3, k3 < w))
+        ctx.prove("post.result[k] == CS(k, n): the sum of the k-th cells of the rows that have one", out.get(k3) == CS(k3, n), pool=[k3, n, S(n)])
+        r4 = z3.Int("r4")
+        ctx.skolem(z3.And(0 <= r4, r4 < n))
+        ctx.prove("post.len(result) covers every row", L(r4) <= w, pool=[r4, r4 + 1])
+        ctx.prove("post.operand not modified", z3.BoolVal(g.D.buf.writes == 0))
+
+    def concretise(self, kind, model, ghost):
+        g = ghost["g"]
+        n = min(max(model_int(model, g.n), 1), 5)
+        ls = [min(max(model_int(model, g.L(z3.IntVal(r))), 0), 4) for r in range(n)]
+        if sum(ls) == 0:
+            ls[0] = 1
+        return {"lengths": ls}
+
+    def concrete(self, case):
+        from npstructures import RaggedArray
+        ls = case["lengths"]
+        rows, v = [], 3
+        for l in ls:
+            rows.append([((v + i) * 7) % 11 - 3 for i in range(l)])
+            v += l
+        ra = RaggedArray(np.array([x for r in rows for x in r], dtype=np.int64), ls)
+        got = ra.sum(axis=0)
+        exp = [sum(row[k] for row in rows if len(row) > k) for k in range(max(ls))]
+        if list(got) != exp:
+            return {"msg": f"sum(axis=0) of rows {rows}: {list(got)}, expected {exp}", "sig": "wrong:col-sum"}
+
+    def bounded_cases(self, tier, seed):
+        from ..bounded.common import length_vectors
+        for ls in length_vectors(4, 3):
+            if sum(ls) > 0:
+                yield {"lengths": ls}
+
+    def nontrivial(self, case):
+        return 0 in case["lengths"]
